@@ -1,6 +1,7 @@
 import MpVerif.C02.LemmasTop
 import MpVerif.C02.LemmasTotal
 import MpVerif.C02.LemmasSafe
+import MpVerif.C02.LemmasHeader
 /-!
 # C02 — property theorems
 
@@ -136,6 +137,34 @@ theorem C02_header_first (data : ByteArray) (flags : Nat) (objsel : Option Nat)
   intro ho
   rw [ho] at hc
   simp [Outcome.isOk] at hc
+
+/-! ### the header itself -/
+
+theorem finish_header (h : Header) (res : PRes Unit) : (finish h res).header = some h := by
+  cases res <;> rfl
+
+/-- **C02 (declared index space).**  A header that is delivered to the handler declares index spaces that
+    fit `int`: `num_vars + Σ common-expression counts ≤ INT_MAX` (the five counts are accumulated by
+    `ReadUInt(int &accumulator)`, each checked against the running total) and
+    `num_algebraic_cons + num_logical_cons ≤ INT_MAX`.  Every later range check is made against these sums. -/
+theorem C02_header_index_space (data : ByteArray) (flags : Nat) (objsel : Option Nat) (h : Header)
+    (hh : (readNL data flags objsel).header = some h) :
+    h.num_vars + h.num_common_exprs ≤ 2147483647 ∧ h.num_algebraic_cons + h.num_logical_cons ≤ 2147483647 := by
+  unfold readNL readNLInp at hh
+  split at hh
+  · cases hh
+  · cases hh
+  · rename_i h0 r hhd
+    have e : h0 = h := by
+      split at hh
+      · rw [finish_header] at hh; exact Option.some.inj hh
+      split at hh
+      · rw [finish_header] at hh; exact Option.some.inj hh
+      split at hh
+      · rw [finish_header] at hh; exact Option.some.inj hh
+      · exact Option.some.inj hh
+    subst e
+    exact ⟨(readHeader_index_space (Inp.ofBytes data)).h _ _ _ hhd, (readHeader_con_space (Inp.ofBytes data)).h _ _ _ hhd⟩
 
 /-! ### termination -/
 
